@@ -129,3 +129,71 @@ pub fn record(args: &[String]) -> Value {
     let nlines = out.finish();
     json!({"events": nlines, "runs": runs, "items_popped": items_total, "stalls": stalls})
 }
+
+/// worker-record <seed> <runs> <out>: the real sync::worker credit channel with one or two sender handles (the second a
+/// clone of the first) on their own threads; handles are dropped at random points
+pub fn worker_record(args: &[String]) -> Value {
+    use s2n_quic_core::sync::worker;
+    silence_panics();
+    let seed: u64 = args[0].parse().unwrap();
+    let runs: usize = args[1].parse().unwrap();
+    let mut out = TraceOut::new(&args[2]);
+    let mut rng = StdRng::seed_from_u64(seed ^ 0x770c);
+    let mut stalls = 0u64;
+    for _ in 0..runs {
+        let handles = rng.random_range(1..3usize);
+        let batches: Vec<u64> = (0..handles).map(|_| rng.random_range(0..20)).collect();
+        let log: Arc<Mutex<Vec<(u64, Value)>>> = Arc::new(Mutex::new(Vec::new()));
+        let seq = Arc::new(AtomicU64::new(0));
+        let ev = |log: &Arc<Mutex<Vec<(u64, Value)>>>, seq: &Arc<AtomicU64>, v: Value| {
+            let k = seq.fetch_add(1, Ordering::SeqCst);
+            log.lock().unwrap().push((k, v));
+        };
+        let (tx, mut rx) = worker::channel();
+        let deadline = Instant::now() + Duration::from_secs(10);
+        let mut txs = vec![tx];
+        if handles == 2 {
+            ev(&log, &seq, json!({"ev": "clone"}));
+            let c = txs[0].clone();
+            txs.push(c);
+        }
+        let mut ths = Vec::new();
+        for (h, tx) in txs.into_iter().enumerate() {
+            let (l, s, n) = (log.clone(), seq.clone(), batches[h]);
+            let delay = rng.random_range(0..3u64);
+            ths.push(std::thread::spawn(move || {
+                if delay > 0 { std::thread::sleep(Duration::from_millis(delay)); }
+                for _ in 0..n {
+                    ev(&l, &s, json!({"ev": "submit_start", "h": h, "n": 1}));
+                    tx.submit(1);
+                    if n % 3 == 0 { std::thread::yield_now(); }
+                }
+                ev(&l, &s, json!({"ev": "drop_handle", "h": h}));
+                drop(tx);
+                ev(&l, &s, json!({"ev": "dropped_handle", "h": h}));
+            }));
+        }
+        let (l2, s2) = (log.clone(), seq.clone());
+        let r = std::thread::spawn(move || {
+            loop {
+                match block_on(rx.acquire(), deadline) {
+                    None => { ev(&l2, &s2, json!({"ev": "stall", "side": "r"})); return; }
+                    Some(None) => { ev(&l2, &s2, json!({"ev": "closed"})); return; }
+                    Some(Some(n)) => { ev(&l2, &s2, json!({"ev": "acquired", "n": n})); rx.finish(n); }
+                }
+            }
+        });
+        for t in ths { let _ = t.join(); }
+        let _ = r.join();
+        out.emit(json!({"ev": "reset", "handles": handles}));
+        let mut l = std::mem::take(&mut *log.lock().unwrap());
+        l.sort_by_key(|x| x.0);
+        for (_, v) in l {
+            if v["ev"] == "stall" { stalls += 1; }
+            out.emit(v);
+        }
+        out.emit(json!({"ev": "end"}));
+    }
+    let n = out.finish();
+    json!({"events": n, "runs": runs, "stalls": stalls})
+}
